@@ -231,11 +231,11 @@ def r4(ctx):
 @rule("C07", "R5", "TERM", "the labelling kernel honours a per-pair price: zero entries make the boundary pairs free, and the optimum is over within-series pairs only")
 def r5(ctx):
     from . import c01
-    c01.r1(ctx)
-    c01.r2(ctx)
-    c01.r3(ctx)
-    c01.r4(ctx)
-    c01.r5(ctx)
+    ctx.sub(c01.r1)
+    ctx.sub(c01.r2)
+    ctx.sub(c01.r3)
+    ctx.sub(c01.r4)
+    ctx.sub(c01.r5)
 
 
 @rule("C07", "R6", "RANGE", "each series is stacked exactly (no window mixes two series; no series loses or gains rows)")
@@ -247,5 +247,5 @@ def r6(ctx):
 @rule("C07", "R7", "FLOW", "joint and single-series front ends pad alike: each series gets pad_missing_labels(split[k], W)")
 def r7(ctx):
     from . import c04
-    c04.r4(ctx)
-    c04.r1(ctx)
+    ctx.sub(c04.r4)
+    ctx.sub(c04.r1)
